@@ -84,12 +84,15 @@ Record gspec := {
   gs_rerun  : list (N * list N);     (* node -> attempts (1-based, whole run) returning InterruptAndRerun *)
   gs_before : list N;                (* WithInterruptBeforeNodes                                       *)
   gs_after  : list N;                (* WithInterruptAfterNodes                                        *)
+  gs_leaf   : list N;                (* lambdas whose output is not a map (a string: the size of the input);
+                                        their data edges are mapped with ToField (n_dmap of the graph)   *)
+  gs_inkey  : list (N * N);          (* node -> key of WithInputKey                                    *)
 }.
 
 (* the same graph compiled without any interrupt configuration, rerun tables off: the reference run *)
 Definition strip (g : gspec) : gspec :=
   {| gs_graph := gs_graph g; gs_state := gs_state g; gs_st := gs_st g; gs_rerun := [];
-     gs_before := []; gs_after := [] |}.
+     gs_before := []; gs_after := []; gs_leaf := gs_leaf g; gs_inkey := gs_inkey g |}.
 
 Definition is_empty (v : value) : bool :=
   match v with VNil => true | VMap [] => true | _ => false end.
@@ -127,10 +130,28 @@ Definition seg_fuel (g : graph) : nat :=
   | Dag => (2 * List.length (g_nodes g) + 4)%nat
   end.
 
+(* what a lambda computes when it completes *)
+Definition lam_body (g : gspec) (k : N) (v : value) : value :=
+  if memN k (gs_leaf g) then VAtom (vsize v) else VMap [(k, v)].
+
+Definition eNoKey : N := 30.      (* "cannot find input key" *)
+
+(* WithInputKey: the node body sees input[key]. A nested graph that continues from its nested
+   checkpoint is handed a placeholder input it ignores (fix 51c8622: the missing key is not an error then) *)
+Definition key_input (g : gspec) (k : N) (cpo : option ncp) (v : value) : res value :=
+  match nlist_get k (gs_inkey g) with
+  | None => Ok v
+  | Some f =>
+    match (match v with VMap kvs => nlist_get f kvs | _ => None end) with
+    | Some x => Ok x
+    | None => match cpo with Some _ => Ok VNil | None => Err eNoKey end
+    end
+  end.
+
 Definition lambda_exec (g : gspec) (k : N) (v : value) (e : env) : tex * env :=
   let a := match nlist_get k (e_att e) with Some a => a + 1 | None => 1 end in
   let ab := match nlist_get k (gs_rerun g) with Some l => memN a l | None => false end in
-  ((if ab then TRerun else TDone (VMap [(k, v)])),
+  ((if ab then TRerun else TDone (lam_body g k v)),
    {| e_att := ainsert k a (e_att e); e_log := e_log e ++ [LExec k v ab]; e_mod := e_mod e; e_sched := e_sched e |}).
 
 Section Seg.
@@ -177,9 +198,11 @@ Definition sm_of (e : env) : gst -> gst := if e_mod e then bump else (fun s => s
 (* node bodies; [d] bounds the nesting depth *)
 Fixpoint node_exec (d : nat) (F : list gspec) (g : gspec) (k : N) (cpo : option ncp) (v : value) (e : env)
   {struct d} : tex * env :=
-  match find_node (gs_graph g) k with
-  | None => (TFail eUnknownNode, e)
-  | Some n =>
+  match find_node (gs_graph g) k, key_input g k cpo v with
+  | None, _ => (TFail eUnknownNode, e)
+  | Some _, Err x => (TFail x, e)
+  | Some _, Panic => (TFail ePanic, e)
+  | Some n, Ok v =>
     match n_kind n with
     | KSub j =>
       match d with
